@@ -47,8 +47,10 @@ func init() {
 	register(&Property{
 		ID: "C15",
 		Explanation: "Decided: (R1) no registered reader/writer passes a value to the codec that it cannot represent (interface-typed refs, named basic types, unexported-only structs ...); (R2) every message type told by an actor-context operation is registered for the wire, or is told only to references taken from the local parent/child/target tables or to the actor itself; " +
-			"(R3) the mailbox lookup reaches the remoting mailbox for every non-local address whenever remoting is enabled and the system is not stopped; (R4) sender/receiver roles are preserved end to end so that Reply reaches the original sender (C11.R5). NOT decided: the observable effect at the remote actor.",
+			"(R3) the mailbox lookup reaches the remoting mailbox for every non-local address whenever remoting is enabled and the system is not stopped; (R4) sender/receiver roles are preserved end to end so that Reply reaches the original sender (C11.R5); (R5) a nested message that the library itself may leave nil (the Message of a failure PipeResult) is guarded by a non-nil test in its writer, because a nil message can only take the user-codec path and fails without a codec (F30, fixed); (R6) the key under which Watch/Unwatch store a watcher depends on the watcher's address; R1 also rejects length prefixes narrower than 4 bytes for unbounded strings (long actor paths). NOT decided: the observable effect at the remote actor.",
 		Rules: []Rule{
+			{ID: "C15.R6", Min: 4, Desc: "watcher identity includes the address", Fn: c15WatcherIdentity},
+			{ID: "C15.R5", Min: 2, Desc: "optional nested payloads are encodable without a codec", Fn: c15OptionalPayload},
 			{ID: "C15.R1", Min: 28, Desc: "wire-representable fields", Fn: c15Representable},
 			{ID: "C15.R2", Min: 10, Desc: "told message types are registered or local-only", Fn: c15Registered},
 			{ID: "C15.R3", Min: 2, Desc: "routing of non-local addresses", Fn: c15Routing},
@@ -1118,6 +1120,148 @@ func c15Representable(p *Program, r *Report) {
 		}
 		r.Check(bad == "", pr.Name+": every value is wire-representable", pr.Pos, map[bool]string{true: "all values handed to the codec have a type it encodes and decodes", false: bad}[bad == ""])
 	}
+	// actor paths and addresses are unbounded strings: a length prefix narrower than 4 bytes cannot carry every reference
+	for _, sw := range p.shortLengthWrites() {
+		r.Violate(fmt.Sprintf("%s: %s #%d with a %d-byte length prefix", fnName(sw.Fn), sw.What, sw.Ord, sw.Bytes), sw.In.Pos(),
+			fmt.Sprintf("a built-in message writes an unbounded string with a %d-byte length prefix: references with long paths cannot be sent to a remote actor although the same operation works locally", sw.Bytes))
+	}
+}
+
+// c15OptionalPayload: a registered message that nests another message hands it to Writer.WriteMessage. A nil nested
+// message has no descriptor, so it takes the user-codec path and fails with "codec required" when no codec is
+// configured (the property quantifies over both configurations). The nested field therefore needs a non-nil guard in the
+// writer unless nil can only come from the user: every construction site of the message in the module fills the field from
+// a caller-supplied message value. A field the library itself leaves at (or fills with) a possibly-zero value — an omitted
+// field, a nil constant, a value of type-parameter type such as a future's unset result — is a violation.
+func c15OptionalPayload(p *Program, r *Report) {
+	c := p.codec()
+	n := 0
+	for _, rg := range p.registrations() {
+		if rg.Writer == nil {
+			continue
+		}
+		g := p.ig(rg.Writer)
+		for i, in := range g.Nodes {
+			cc := callOf(in)
+			if cc == nil || cc.StaticCallee() == nil || cc.StaticCallee().Name() != "WriteMessage" || cc.StaticCallee().Signature.Recv() == nil || namedOf(cc.StaticCallee().Signature.Recv().Type()) != c.WriterT {
+				continue
+			}
+			fld, _ := fieldLoad(cc.Args[1])
+			if fld == nil {
+				continue
+			}
+			n++
+			construct := fmt.Sprintf("%s: nested message %s.%s", fnName(rg.Writer), ownerName(fld), fld.Name())
+			guard := map[edge]bool{}
+			for _, ef := range p.edgeFacts(g) {
+				if ef.Field == fld && ef.Fact.IsNil && ef.Fact.Op == token.NEQ {
+					guard[ef.E] = true
+				}
+			}
+			if len(guard) > 0 && g.DominatedByEdges(i, guard) {
+				r.Check(true, construct, in.Pos(), "WriteMessage is dominated by a non-nil test of the field: an absent payload is not handed to the codec path")
+				continue
+			}
+			// construction sites of the owner struct in the module
+			libNil := ""
+			sites := 0
+			for fn := range p.All {
+				if !p.inModule(fn) || len(fn.Blocks) == 0 {
+					continue
+				}
+				for _, b := range fn.Blocks {
+					for _, cin := range b.Instrs {
+						al, ok := cin.(*ssa.Alloc)
+						if !ok || namedOf(al.Type()) == nil || namedOf(al.Type()).Obj() != fld.Pkg().Scope().Lookup(ownerName(fld)) {
+							continue
+						}
+						if _, isStruct := al.Type().(*types.Pointer).Elem().Underlying().(*types.Struct); !isStruct {
+							continue
+						}
+						sites++
+						stored := false
+						for _, ref := range *al.Referrers() {
+							fa, ok := ref.(*ssa.FieldAddr)
+							if !ok || fieldOfAddr(fa) != fld {
+								continue
+							}
+							for _, r2 := range *fa.Referrers() {
+								st, ok := r2.(*ssa.Store)
+								if !ok || st.Addr != ssa.Value(fa) {
+									continue
+								}
+								stored = true
+								v := st.Val
+								for {
+									if mi, ok := v.(*ssa.MakeInterface); ok {
+										v = mi.X
+										continue
+									}
+									if ci, ok := v.(*ssa.ChangeInterface); ok {
+										v = ci.X
+										continue
+									}
+									break
+								}
+								for {
+									if ct, ok := v.(*ssa.ChangeType); ok {
+										v = ct.X
+										continue
+									}
+									break
+								}
+								v = strip(v)
+								_, isTP := v.Type().(*types.TypeParam)
+								switch x := v.(type) {
+								case *ssa.Parameter, *ssa.FreeVar:
+									if isTP {
+										libNil = "a value of type-parameter type (zero unless assigned) stored at " + p.pos(st.Pos())
+									}
+								case *ssa.Call:
+									if !(x.Call.IsInvoke() && x.Call.Method.Name() == "Message") {
+										libNil = "a computed value (" + shortCallee(&x.Call) + ") stored at " + p.pos(st.Pos())
+									}
+								case *ssa.UnOp:
+									if f2, _ := fieldLoad(x); f2 == nil {
+										libNil = "a computed value stored at " + p.pos(st.Pos())
+									}
+								default:
+									if isNilConst(v) {
+										libNil = "nil stored at " + p.pos(st.Pos())
+									} else {
+										libNil = fmt.Sprintf("a computed value (%T) stored at %s", v, p.pos(st.Pos()))
+									}
+								}
+							}
+						}
+						if !stored {
+							libNil = "field omitted in the literal at " + p.pos(al.Pos())
+						}
+					}
+				}
+			}
+			if sites == 0 {
+				r.Check(true, construct, in.Pos(), "no construction site in the module: the message is built by users only")
+				continue
+			}
+			r.Check(libNil == "", construct, in.Pos(), fmt.Sprintf("not guarded by a non-nil test; %d construction sites in the module: %s", sites, map[bool]string{true: "each fills the field from a caller-supplied message (nil only if the user sends nil)", false: "the library itself can leave the payload nil (" + libNil + "), which cannot be encoded without a user codec"}[libNil == ""]))
+		}
+	}
+	if n == 0 {
+		r.Unresolved("no nested WriteMessage(field) in a registered writer")
+	}
+}
+
+func fieldOfAddr(fa *ssa.FieldAddr) *types.Var {
+	pt, ok := fa.X.Type().Underlying().(*types.Pointer)
+	if !ok {
+		return nil
+	}
+	st, ok := pt.Elem().Underlying().(*types.Struct)
+	if !ok {
+		return nil
+	}
+	return st.Field(fa.Field)
 }
 
 func c15Registered(p *Program, r *Report) {
@@ -1276,6 +1420,117 @@ func constSliceLen(v ssa.Value) int64 {
 	return -1
 }
 
+// leafCalls: the calls a (string) value is built from, through concatenation, fmt.Sprintf arguments, conversions and phis.
+func leafCalls(v ssa.Value) map[string]bool {
+	leaves := map[string]bool{}
+	seen := map[ssa.Value]bool{}
+	var walk func(v ssa.Value, d int)
+	walk = func(v ssa.Value, d int) {
+		if v == nil || seen[v] || d > 10 {
+			return
+		}
+		seen[v] = true
+		switch x := v.(type) {
+		case *ssa.BinOp:
+			walk(x.X, d+1)
+			walk(x.Y, d+1)
+		case *ssa.Phi:
+			for _, e := range x.Edges {
+				walk(e, d+1)
+			}
+		case *ssa.MakeInterface:
+			walk(x.X, d+1)
+		case *ssa.Convert:
+			walk(x.X, d+1)
+		case *ssa.ChangeType:
+			walk(x.X, d+1)
+		case *ssa.Extract:
+			walk(x.Tuple, d+1)
+		case *ssa.Call:
+			if x.Call.IsInvoke() {
+				leaves[x.Call.Method.Name()] = true
+				walk(x.Call.Value, d+1)
+			} else {
+				leaves[calleeQual(&x.Call)] = true
+			}
+			for _, a := range x.Call.Args {
+				if elems, ok := varargElems(a); ok {
+					for _, e := range elems {
+						walk(e, d+1)
+					}
+				} else {
+					walk(a, d+1)
+				}
+			}
+		}
+	}
+	walk(v, 0)
+	return leaves
+}
+
+// c15WatcherIdentity: a watcher is identified by address and path. The key under which the watch/unwatch handlers store a
+// watcher in the watched actor's table must depend on the watcher's address (GetAddress, or String() which formats both),
+// otherwise a remote watcher whose path equals a local watcher's path is taken for "already watching" and never learns
+// of the termination — Watch would behave differently for local and remote references.
+func c15WatcherIdentity(p *Program, r *Report) {
+	lc := lcOrFail(p, r)
+	if lc == nil {
+		return
+	}
+	n := 0
+	for _, fn := range p.methodsOf(lc.Ctx) {
+		handles := false
+		for _, prm := range fn.Params {
+			if t := typeName(prm.Type()); strings.HasSuffix(t, "messages.WatchMessage") || strings.HasSuffix(t, "messages.UnwatchMessage") {
+				handles = true
+			}
+		}
+		if !handles {
+			continue
+		}
+		for _, b := range fn.Blocks {
+			for _, in := range b.Instrs {
+				var key ssa.Value
+				var tbl ssa.Value
+				kind := ""
+				switch x := in.(type) {
+				case *ssa.MapUpdate:
+					key, tbl, kind = x.Key, x.Map, "store"
+				case *ssa.Lookup:
+					key, tbl, kind = x.Index, x.X, "lookup"
+				case *ssa.Call:
+					if bi, ok := x.Call.Value.(*ssa.Builtin); ok && bi.Name() == "delete" {
+						key, tbl, kind = x.Call.Args[1], x.Call.Args[0], "delete"
+					}
+				}
+				if key == nil {
+					continue
+				}
+				f, _ := fieldLoad(tbl)
+				if f == nil || fieldVar(lc.Ctx, f.Name()) != f {
+					continue
+				}
+				if !strings.HasSuffix(typeName(f.Type().Underlying().(*types.Map).Elem()), "ActorRef") {
+					continue
+				}
+				n++
+				leaves := leafCalls(key)
+				var ls []string
+				for l := range leaves {
+					ls = append(ls, l)
+				}
+				sort.Strings(ls)
+				_, isStr := key.Type().Underlying().(*types.Basic)
+				ok := !isStr || leaves["GetAddress"] || leaves["String"]
+				r.Check(ok, fmt.Sprintf("watcher table %s key in %s", kind, fnName(fn)), in.Pos(), fmt.Sprintf("the key is built from %v and depends on the watcher's address: two watchers with the same path on different systems are distinct entries", ls))
+			}
+		}
+	}
+	if n == 0 {
+		r.Unresolved("watcher table accesses in the Watch/Unwatch handlers")
+	}
+}
+
 // c14ConnName: the connection actor of an outbound connection is spawned under a name. The frame reader's clean-EOF exit
 // leaves the old connection actor registered (it neither re-arms nor kills), so a later re-dial to the same peer must not
 // reuse its name: the name has to contain a component that differs per socket (the local ephemeral address, a uuid, a
@@ -1328,49 +1583,7 @@ func c14ConnName(p *Program, r *Report) {
 					r.Check(true, construct, in.Pos(), "the frame reader's clean-EOF exit kills the connection actor: a stale registration cannot block a re-dial")
 					continue
 				}
-				leaves := map[string]bool{}
-				seen := map[ssa.Value]bool{}
-				var walk func(v ssa.Value, d int)
-				walk = func(v ssa.Value, d int) {
-					if v == nil || seen[v] || d > 10 {
-						return
-					}
-					seen[v] = true
-					switch x := v.(type) {
-					case *ssa.BinOp:
-						walk(x.X, d+1)
-						walk(x.Y, d+1)
-					case *ssa.Phi:
-						for _, e := range x.Edges {
-							walk(e, d+1)
-						}
-					case *ssa.MakeInterface:
-						walk(x.X, d+1)
-					case *ssa.Convert:
-						walk(x.X, d+1)
-					case *ssa.ChangeType:
-						walk(x.X, d+1)
-					case *ssa.Extract:
-						walk(x.Tuple, d+1)
-					case *ssa.Call:
-						if x.Call.IsInvoke() {
-							leaves[x.Call.Method.Name()] = true
-							walk(x.Call.Value, d+1)
-						} else {
-							leaves[calleeQual(&x.Call)] = true
-						}
-						for _, a := range x.Call.Args {
-							if elems, ok := varargElems(a); ok {
-								for _, e := range elems {
-									walk(e, d+1)
-								}
-							} else {
-								walk(a, d+1)
-							}
-						}
-					}
-				}
-				walk(nameArg, 0)
+				leaves := leafCalls(nameArg)
 				unique := ""
 				var ls []string
 				for l := range leaves {
